@@ -46,11 +46,16 @@ ctrans(const AbstractTensor<Expr,DIM0> &src) {
 }
 
 /* Backend implementation */
+namespace internal {
+// conjugate of a scalar: identity for real types
+template<typename T> FASTOR_INLINE T scalar_conj(const T &a) { return a; }
+template<typename T> FASTOR_INLINE std::complex<T> scalar_conj(const std::complex<T> &a) { return std::conj(a); }
+}
 template<typename T, size_t M, size_t N>
 FASTOR_INLINE void _ctranspose(const T * FASTOR_RESTRICT a, T * FASTOR_RESTRICT out) {
     for (size_t j=0; j<N; ++j)
         for (size_t i=0; i< M; ++i)
-            out[j*M+i] = conj(a[i*N+j]);
+            out[j*M+i] = internal::scalar_conj(a[i*N+j]);
 }
 
 /* Tensor conjugate transpose immediately returning a tensor */
